@@ -185,6 +185,10 @@ pub fn directed_texts() -> Vec<(&'static str, String)> {
         ("lp", "p(1..9223372036854775807).".into()),
         ("lp", "p(X) :- X = 1 / 0.".into()),
         ("lp", "p(X) :- X = -9223372036854775808 / -1.".into()),
+        ("lp", "p(V18446744073709551615) :- q(V18446744073709551615).".into()),
+        ("lp", "p(V18446744073709551615, V18446744073709551614).".into()),
+        ("lp", "p(V99999999999999999999999) :- q(V99999999999999999999999).".into()),
+        ("lp", "p(I9, J9, K9, Z9223372036854775807, N18446744073709551615, 1..2).".into()),
     ];
     let args: String = (0..120).map(|i| format!("X{i}")).collect::<Vec<_>>().join(",");
     v.push(("lp", format!("p({args}) :- q({args}).")));
